@@ -29,6 +29,7 @@ SITE = 'tenpy/networks/site.py'
 KRY = 'tenpy/linalg/krylov_based.py'
 SPARSE = 'tenpy/linalg/sparse.py'
 MC = 'tenpy/algorithms/mps_common.py'
+TERMS = 'tenpy/networks/terms.py'
 
 # ---------------------------------------------------------------- C20
 M('C20', 'disconnect compares with literal 0 (original defect)', EV,
@@ -405,3 +406,52 @@ M('C03', 'conj real path without copy', NPC, """            if inplace:
                 res = self.copy(deep=True)
         res.qtotal = self.chinfo.make_valid(-res.qtotal)""", """            res = self
         res.qtotal = self.chinfo.make_valid(-res.qtotal)""", 'OWN-inplace-flag')
+
+# ---------------------------------------------------------------- C10
+M('C10', 'add_onsite halves nothing under explicit_plus_hc', MODEL,
+  """        if self.explicit_plus_hc:
+            if plus_hc:
+                plus_hc = False  # explicitly add the h.c. later; don't do it here.
+            else:
+                strength /= 2  # avoid double-counting this term: add the h.c. explicitly later on
+        if not self.lat.unit_cell[u].valid_opname(opname):""",
+  """        if self.explicit_plus_hc:
+            if plus_hc:
+                plus_hc = False  # explicitly add the h.c. later; don't do it here.
+        if not self.lat.unit_cell[u].valid_opname(opname):""", 'PLUSHC-guard')
+M('C10', 'add_coupling hc keeps dx', MODEL, 'u1, hc_op1, -dx, hc_opstr, category, plus_hc=False',
+  'u1, hc_op1, dx, hc_opstr, category, plus_hc=False', 'PLUSHC-reverse')
+M('C10', 'add_coupling_term hc forgets conj', MODEL,
+  'ct.add_coupling_term(np.conj(strength), i, j, hc_op_i, hc_op_j, hc_op_string)',
+  'ct.add_coupling_term(strength, i, j, hc_op_i, hc_op_j, hc_op_string)', 'PLUSHC-hc-block')
+M('C10', 'add_onsite_term hc uses same operator', MODEL,
+  'ot.add_onsite_term(np.conj(strength), i, hc_op)', 'ot.add_onsite_term(np.conj(strength), i, op)',
+  'PLUSHC-hc-block')
+M('C10', 'calc_H_MPO forgets the flag', MODEL,
+  '        H_MPO.explicit_plus_hc = self.explicit_plus_hc\n', '', 'HCFLAG-model')
+M('C10', 'exp decay lambda not conjugated (seed)', MODEL,
+  'np.conj(strength), np.conj(lambda_), hc_op_i, hc_op_j, subsites, subsites_start, hc_opstr',
+  'np.conj(strength), lambda_, hc_op_i, hc_op_j, subsites, subsites_start, hc_opstr',
+  'PLUSHC-hc-block')
+M('C10', 'coupling terms overwrite instead of accumulate', TERMS,
+  'd3[op_j] = d3.get(op_j, 0) + strength', 'd3[op_j] = strength', 'TERMS-accumulate')
+
+# ---------------------------------------------------------------- C12
+M('C12', 'correlation_function ops1 for sites2 (original defect)', MPS,
+  'op_needs_JW(ops2[j % len(ops2)])', 'op_needs_JW(ops1[j % len(ops1)])', 'FAMILY-mix')
+M('C12', 'grouped drop uses sites[0] (original defect)', SITE,
+  'from_drop_charge(site.leg, chargeinfo=chinfo)', 'from_drop_charge(sites[0].leg, chargeinfo=chinfo)',
+  'LOOPVAR-unused')
+M('C12', 'remove_op keeps JW flag', SITE, '        self.need_JW_string.discard(name)\n', '',
+  'SITE-registry')
+M('C12', 'add_op hc one direction only', SITE,
+  '            self.hc_ops[hc] = name\n            self.hc_ops[name] = hc',
+  '            self.hc_ops[name] = hc', 'SITE-registry')
+M('C12', 'op_needs_JW is an OR instead of parity', SITE,
+  '                need_JW = not need_JW', '                need_JW = True', 'SITE-jw-parity')
+M('C12', 'fermionic sign on every swap', TERMS, 'if t1[2] and t2[2]:', 'if t1[2] or t2[2]:',
+  'JW-entry')
+M('C12', 'grouped site restores wrong list', SITE, '            JW_Ids[i] = site.JW',
+  '            JW_Ids[i] = site.Id', 'GROUPED-jw')
+M('C12', 'TermList shares the strength array (seed)', TERMS, 'self.strength = np.array(strength)',
+  'self.strength = np.asarray(strength)', 'OWN-attr')
